@@ -338,6 +338,15 @@ func toGo(v Value) interface{} {
 				}
 			}
 			return out
+		case "arrany": // a Go array of untyped values ([2]interface{} / [3]interface{} ...)
+			t := reflect.ArrayOf(len(v.Xs), reflect.TypeOf((*interface{})(nil)).Elem())
+			a := reflect.New(t).Elem()
+			for i, x := range v.Xs {
+				if g := toGo(x); g != nil {
+					a.Index(i).Set(reflect.ValueOf(g))
+				}
+			}
+			return a.Interface()
 		case "embnils": // []*embHolder: pointers to structs whose embedded pointer is nil (elements: K)
 			out := make([]*embHolder, len(v.Xs))
 			for i, x := range v.Xs {
